@@ -350,9 +350,19 @@ def r2(ctx):
                     t1 = e1 if (k1 == "err" and e1 is not None) else p1
                     # (i) the earlier check's error exit is not reachable from the later check's decision point
                     ok = not b.reachable(p2, t1) or p2 == t1
-                    # (ii) the earlier error exit returns: it cannot fall through to the later check
-                    if ok and k1 == "err" and e1 is not None and b.reachable(e1, p2):
-                        ok = False
+                    # (ii) the earlier error exit returns: it cannot fall through to the later check. The error value may
+                    # travel through `?` (helper inlined / ok_or_else / map_err): the Continue edge of a `?` fed by this
+                    # very error value is infeasible and is cut.
+                    if ok and k1 == "err" and e1 is not None:
+                        avoid = set()
+                        for tb, tt in b.calls(r"ops::Try::branch$"):
+                            tsl = b.slice_op(tt["args"][0])
+                            if any(d_["block"] == e1 for d_ in tsl.aggs):
+                                st_ = b.term(tt["target"]) if tt.get("target") is not None else None
+                                if st_ and st_["k"] == "switch":
+                                    avoid |= {bb for v, bb in st_["targets"] if v == 0}
+                        if p2 == e1 or p2 in b._reachable_from(e1, avoid=avoid):
+                            ok = False
                     # (iii) a `?`-call's success edge is the only way on to the later check
                     if ok and k1 == "call":
                         cont = b.try_continue_block(p1)
@@ -396,7 +406,7 @@ def r3(ctx):
     n = 0
     for body in ctx.facts.find_bodies(r"as signature::IntoRequestBytes>::into_request_bytes"):
         n += 1
-        if result_aggs(body, "Err"):
+        if result_aggs(body, "Err", own_return=False):
             yield VIOL("C13-R3", "into_request_bytes/err:" + body.path, "a built-in body conversion can fail", where=loc(body.j["span"]))
     if n >= 6 or n >= 3:
         yield PASS("C13-R3", "into_request_bytes/infallible", "built-in IntoRequestBytes impls construct no Err (%d bodies)" % n, [])
